@@ -30,7 +30,9 @@ if TYPE_CHECKING:
 _LOGGER = logging.getLogger(__name__)
 
 
-COMMON_KW_NAMES = ("src", "dst", "path", "target", "name", "filename", "file")
+# Keyword names of the first (source or only) path argument and of a destination argument.
+COMMON_KW_NAMES = ("src", "path", "name", "filename", "file")
+DST_KW_NAMES = ("dst", "target")
 
 
 @lru_cache(maxsize=8192)
@@ -94,7 +96,8 @@ class FilesystemIsolation(ContextDecorator):
             return None
         if index < len(args):
             return args[index]
-        for name in COMMON_KW_NAMES:
+        # The first argument is the source (or only) path, later ones are destinations.
+        for name in COMMON_KW_NAMES if index == 0 else DST_KW_NAMES:
             if name in kwargs:
                 return kwargs[name]
         return None
